@@ -180,6 +180,16 @@ def r18_2(ctx: Ctx) -> None:
                 ctx.check(g.qname in wclo, "R18.2", g, c, f"'{t}' produced inside closure(Worker.extract)", f"'{t}' event produced outside the worker call (before 'pre' or after 'post')")
 
 
+def _is_tag_expr(f: Func, e: ast.AST) -> bool:
+    """item[0] or a local assigned from <x>[0]."""
+    if isinstance(e, ast.Subscript) and isinstance(e.slice, ast.Constant) and e.slice.value == 0:
+        return True
+    if isinstance(e, ast.Name):
+        vals = q.assigned_values(f, e.id)
+        return bool(vals) and all(isinstance(v, ast.Subscript) and isinstance(v.slice, ast.Constant) and v.slice.value == 0 for v in vals)
+    return False
+
+
 def r18_3(ctx: Ctx) -> None:
     produced: Dict[str, Tuple[Func, ast.Call]] = {}
     for g in ctx.prog.all_funcs:
@@ -193,7 +203,7 @@ def r18_3(ctx: Ctx) -> None:
     for n in walk(rep.node):
         if isinstance(n, ast.If):
             t = n.test
-            if isinstance(t, ast.Compare) and isinstance(t.ops[0], ast.Eq) and isinstance(t.comparators[0], ast.Constant) and isinstance(t.left, ast.Subscript):
+            if isinstance(t, ast.Compare) and isinstance(t.ops[0], ast.Eq) and isinstance(t.comparators[0], ast.Constant) and _is_tag_expr(rep, t.left):
                 tag = t.comparators[0].value
                 meth = [attr_tail(c) for st in n.body for c in ast.walk(st) if isinstance(c, ast.Call) and attr_tail(c).startswith("report_")]
                 if meth:
@@ -209,7 +219,8 @@ def r18_3(ctx: Ctx) -> None:
     # argument positions: s -> (item[1], item[2]); e -> (item[1], item[2]); u -> item[2]
     want = {"s": [1, 2], "e": [1, 2], "u": [2]}
     for n in walk(rep.node):
-        if isinstance(n, ast.If) and isinstance(n.test, ast.Compare) and isinstance(n.test.comparators[0], ast.Constant) and n.test.comparators[0].value in want:
+        if isinstance(n, ast.If) and isinstance(n.test, ast.Compare) and isinstance(n.test.comparators[0], ast.Constant) and n.test.comparators[0].value in want \
+                and _is_tag_expr(rep, n.test.left):
             tag = n.test.comparators[0].value
             calls = [c for st in n.body for c in ast.walk(st) if isinstance(c, ast.Call) and attr_tail(c).startswith("report_")]
             for c in calls:
@@ -249,7 +260,14 @@ def r18_4(ctx: Ctx) -> None:
         incs = [n for n in walk(lp) if isinstance(n, ast.AugAssign) and isinstance(n.target, ast.Name) and n.target.id == acc and isinstance(n.op, ast.Add)]
         resets = [n for n in walk(lp) if isinstance(n, ast.Assign) and isinstance(n.targets[0], ast.Name) and n.targets[0].id == acc]
         # grows by len(chunk) whenever a queue is given
-        inc_ok = bool(incs) and all(isinstance(i.value, ast.Call) and dotted(i.value.func) == "len" for i in incs)
+        def _is_len(v: ast.AST) -> bool:
+            if isinstance(v, ast.Call) and dotted(v.func) == "len":
+                return True
+            if isinstance(v, ast.Name):
+                vals = q.assigned_values(f, v.id)
+                return bool(vals) and all(isinstance(x, ast.Call) and dotted(x.func) == "len" for x in vals)
+            return False
+        inc_ok = bool(incs) and all(_is_len(i.value) for i in incs)
         un = q.node_for(f, c)
         qguard_inc = all(sorted(norm(cd) for cd, pol in q.facts_at(f, i) if pol and "q is not None" in norm(cd)) == ["q is not None"] and
                          not [cd for cd, pol in q.facts_at(f, i) if "q" not in norm(cd) and norm(cd) != norm(lp.test)] for i in incs)
